@@ -190,5 +190,7 @@ def plan(tier):
         jobs.append(Job("history", {"first": first, "third": len(OPS)}, 600, 60, note="selector driven, length 2 and 3"))
         if tier != "quick":
             for second in range(len(OPS)):
+                if _excluded([first, second]):
+                    continue  # the whole partition is the excluded signature of the listed known finding (would be vacuous)
                 jobs.append(Job("history", {"first": first, "second": second, "third": len(OPS)}, 900, 60, note="selector driven, length 4"))
     return jobs
